@@ -69,6 +69,7 @@ def run(modname, tier, seed, procs=None):
 
 
 def report(P, modname):
+    P.in_bounded = True
     if os.environ.get('VERIF_SKIP_B') == '1':          # development aid only
         P.notes.append('Layer B skipped (VERIF_SKIP_B=1)')
         return {}
